@@ -431,6 +431,39 @@ func main() {
 			}
 		}
 	}
+	// every character that might be mistaken for a blank, a line end or an end marker, alone and next to a token:
+	// all C0 controls, DEL, the C1 control NEL, every Unicode white-space and zero-width character, the byte-order mark,
+	// the replacement character and the last code point - only blank, tab, LF and CR may be discarded
+	specials := []rune{}
+	for c := rune(0); c < 0x20; c++ {
+		specials = append(specials, c)
+	}
+	specials = append(specials, 0x7F, 0x85, 0xA0, 0x1680, 0x2000, 0x2003, 0x200A, 0x200B, 0x2028, 0x2029, 0x202F, 0x205F, 0x2060, 0x3000, 0xFEFF, 0xFFFD, 0x10FFFF)
+	for _, p := range progs {
+		if !p.OK() {
+			continue
+		}
+		word := ""
+		for _, w := range []string{"ab", "if", "le", "42", "=", "+", "x1", "a", "z"} {
+			if res := p.tokenize(w); res.errLine == 0 && len(res.toks) == 1 {
+				word = w
+				break
+			}
+		}
+		for _, c := range specials {
+			cs := string(c)
+			texts := []string{cs, cs + cs, " " + cs, cs + "\n", "\n" + cs + "\n"}
+			if word != "" {
+				texts = append(texts, word+cs, cs+word, word+cs+word, word+" "+cs+" "+word, word+"\n"+cs+word+"\n", word+cs+cs+word)
+			}
+			for _, text := range texts {
+				jobs = append(jobs, job{p, 0, text})
+				if res := p.tokenize(text); res.maxRun <= 7 {
+					jobs = append(jobs, job{p, 8, text})
+				}
+			}
+		}
+	}
 	// a multi-byte character as look-ahead (retracted rune) or as token start at every offset around the boundaries:
 	// with the real half size (4096, wrap at 8192) and with tiny halves (wrap at 2n)
 	for pi, p := range progs {
@@ -571,7 +604,7 @@ func main() {
 	r.Set("traces_validated_against_impl", r.Get("executions"))
 	r.Set("evaluations", r.Get("executions"))
 	r.Set("distinct_nontrivial", r.Get("executions"))
-	r.Set("rule", "per emitted program: every text up to the length bound over one representative per symbol class of its automaton plus blank, LF, multi-byte and unmatched characters, run with buffer halves 4, 5, 8 (texts whose longest run plus look-ahead fits in one half) and through New (4096); plus a padding sweep carrying tokens across offsets 4096 and 8192; states = distinct (program, half size, text length mod buffer size) reader configurations exercised; transitions = characters fed")
+	r.Set("rule", "per emitted program: every text up to the length bound over one representative per symbol class of its automaton plus blank, LF, multi-byte and unmatched characters, run with buffer halves 4, 5, 8 (texts whose longest run plus look-ahead fits in one half) and through New (4096); plus a padding sweep carrying tokens across offsets 4096 and 8192; plus 49 special characters (all C0 controls, DEL, NEL, every Unicode white-space / zero-width character, BOM, U+FFFD, U+10FFFF) alone and next to a token (only blank, tab, LF, CR may be discarded); states = distinct (program, half size, text length mod buffer size) reader configurations exercised; transitions = characters fed")
 	r.Assume("reference: maximal run without backtracking as the property states; WS/EOL/COMMENT skipped; an unmatched space, tab, LF or CR is discarded; offsets accepted in characters or in bytes if consistent; no NUL in texts; no token longer than one buffer half")
 	r.Finish()
 }
